@@ -349,6 +349,43 @@ def prop_twice(kc):
     return {"nontrivial": True, "tags": [kind, method, "add_svd" if add_svd else "no_svd"]}
 
 
+def prop_kernels(case):
+    """The compiled (numba, parallel=True) kernels give the same matrices for every thread count and repetition."""
+    import numba
+
+    from glotaran.model.item import fill_item
+    from glotaran.optimization.matrix_provider import MatrixProvider
+
+    with warnings.catch_warnings():
+        warnings.simplefilter("ignore")
+        try:
+            model = kinetic.build_model(kinetic.fit_model(case))
+            params = kinetic.build_parameters(kinetic.fit_model(case))
+        except Exception as e:  # noqa: BLE001
+            raise Discard(f"model cannot be built: {type(e).__name__}")
+        limit = numba.config.NUMBA_NUM_THREADS
+        bit = close = 0
+        try:
+            for lab, d in case["datasets"].items():
+                dm = fill_item(model.dataset[lab], model, params)
+                g, t = np.asarray(d["spectral"], float), np.asarray(d["time"], float)
+                numba.set_num_threads(1)
+                ref = MatrixProvider.calculate_dataset_matrix(dm, g, t).matrix.copy()
+                for n in (2, 5, 16):
+                    numba.set_num_threads(min(n, limit))
+                    for _ in range(3):
+                        m = MatrixProvider.calculate_dataset_matrix(dm, g, t).matrix
+                        s_ = same_vector(ref.ravel(), m.ravel())
+                        check(s_ is not None, "kernels.matrix_depends_on_thread_count", lambda: f"{lab}: threads {n}: max diff {np.abs(ref - m).max():.3e}")
+                        bit += s_ == "bit"
+                        close += s_ == "close"
+        finally:
+            numba.set_num_threads(1)
+    irf = next(iter(case["spec"].get("irf", {"x": {"type": "none"}}).values()))["type"]
+    return {"nontrivial": irf == "spectral-gaussian" or any(m["type"] == "damped-oscillation" for m in case["spec"]["megacomplex"].values()),
+            "tags": [f"irf:{irf}", "all_bit_equal" if close == 0 else "some_close_not_bit", f"launch_thread_limit={limit}"]}
+
+
 twice_strategy = st.builds(
     lambda kc, m, n, s: {"kind": kc[0], "case": kc[1], "method": m, "nfev": n, "add_svd": s},
     case_strategy,
@@ -495,6 +532,10 @@ PROPERTY = Property(
     subs=[
         Sub("history", machine=lambda: ObjectiveMachine, replay_steps=replay_steps, budget={"quick": 160, "thorough": 8000}, steps={"quick": 14, "thorough": 30}),
         Sub("twice", prop=prop_twice, strategy=lambda: twice_strategy, budget={"quick": 96, "thorough": 4000}),
+        Sub("kernels", prop=prop_kernels, strategy=lambda: kinetic.kinetic_cases(max_datasets=2), budget={"quick": 16, "thorough": 3000},
+            shards={"quick": 2, "thorough": 4},
+            doc="dataset matrices of built-in kinetic models recomputed under numba thread counts 2, 5, 16 x 3 repetitions vs one thread "
+                "(4 worker processes only: each uses up to 16 numba threads)"),
         Sub("procs", prop=prop_procs_replay, custom=procs),
     ],
     assumptions=[
